@@ -214,9 +214,11 @@ func (conn *Conn) send(call *Call) {
 	seq := conn.seq
 	var isStreaming bool
 	var closeStreaming bool
+	var openStreaming bool
 	if call.upgrade.Stream > 0 {
 		switch call.upgrade.Stream {
 		case openStream:
+			openStreaming = true
 			call.stream.seq = seq
 			conn.streams[seq] = call
 		case streaming:
@@ -248,12 +250,18 @@ func (conn *Conn) send(call *Call) {
 	if err != nil {
 		conn.mutex.Lock()
 		vhook("c.unregister", conn, call, seq, vbool(conn.pending[seq] == call))
-		delete(conn.pending, seq)
-		if call.upgrade.Stream == openStream {
+		// The call is completed here only if it is still registered: once the
+		// reader has swept it (or a response has taken it), it has been signalled
+		// already and may have been recycled by its caller.
+		registered := conn.pending[seq] == call
+		if registered {
+			delete(conn.pending, seq)
+		}
+		if openStreaming {
 			delete(conn.streams, seq)
 		}
 		conn.mutex.Unlock()
-		if call != nil {
+		if registered {
 			call.Error = err
 			call.done()
 		}
@@ -290,8 +298,9 @@ func (conn *Conn) recv() {
 	if err == io.EOF {
 		err = ErrShutdown
 	}
-	for _, call := range conn.pending {
+	for seq, call := range conn.pending {
 		vhook("c.sweep", conn, call, 0, 0)
+		delete(conn.pending, seq)
 		call.Error = err
 		call.done()
 	}
